@@ -39,7 +39,7 @@ def clean():
 
 res = {}
 clean()
-shutil.copy(f"{src}/{demo_file}", f"{wt}/{dest}")
+os.makedirs(os.path.dirname(f"{wt}/{dest}"), exist_ok=True); shutil.copy(f"{src}/{demo_file}", f"{wt}/{dest}")
 rc, out = sh(f"cargo test -p {pkg} --offline --test {testname}")
 res["demo_without_change"] = {"rc": rc, "tests": tests(out)}
 rc0, out0 = sh(f"cargo test -p {pkg} --offline --lib")
